@@ -25,12 +25,13 @@ RULE = (
     "cases = kind csb (explicit proposal/total/bound vectors, n 1..10, scale 1e-2..1e7, bounds 0/finite/inf/equal, totals interior/at-min/at-max/"
     "infeasible by 0.5..1e-9 relative/zero, proposals random/all-zero/single/feasible/rescaled-feasible/feasible-plus-bump/at-bounds), kind tsc "
     "(Optimization with plain/paired/package adjustments on 10 programs, 1..3 years each, abs/rel bounds, default or explicit totals, scalar or "
-    "per-year budget factor, 1..3 proposals inside the adjustables' limits), kind pkg, kind paired; non-trivial = the problem is infeasible "
+    "per-year budget factor, 1..2 proposals inside the adjustables' limits: uniform/initial/at-lower/at-upper/water-filled to total*(1+eps)/single non-zero), kind pkg "
+    "(2..6 members, fixed or free proportions, fixed or adjustable total, 1..3 proposals), kind paired (two gradients per case); non-trivial = the problem is infeasible "
     "(exception or UnresolvableConstraint expected) or the proposal needed a projection (rescaled proposal breaks a bound / allocation changed by the "
     "constraint) / package fractions needed rescaling / non-zero paired transfer; distinct = distinct case hash"
 )
 ASSUMPTIONS = [
-    "proposals are finite and non-negative and bounds satisfy 0 <= lb <= ub (spending); the total is >= 0",
+    "proposals are finite and non-negative and bounds satisfy 0 <= lb <= ub (spending); the total is >= 0; amounts are 0 or at least 1e-9 of the case scale (no denormal amounts)",
     "every program is reached by at most one adjustment (the code documents several adjustments on one program as unsupported)",
     "explicit constraint years are years in which some adjustment acts (anything else is rejected by a documented Exception)",
     "paired adjustments are used with instructions that already hold an allocation entry for both programs exactly at t[0] (as in the package's own test; anything else fails loudly with a TypeError) and t[1] > t[0]",
@@ -101,6 +102,7 @@ def _fill(lo, cap, s, w):
 
 
 # --------------------------------------------------------------------------- strategies
+
 
 def _snap(v):
     """[0,1] stays; (1,1.5] is mapped onto the special values 0, 1, 0.5 (one draw per number: Hypothesis draws dominate the run time)"""
@@ -642,7 +644,7 @@ def _check_tsc(case):
         if lo > total or hi < total:
             exp_unres = True
         for edge in (lo, hi):
-            if math.isfinite(edge) and abs(edge - total) <= 1e-12 * max(abs(total), abs(edge)) and len(m["entries"][t]) > 1:
+            if math.isfinite(edge) and max(abs(edge), abs(total)) > 0 and abs(edge - total) <= 1e-12 * max(abs(total), abs(edge)) and len(m["entries"][t]) > 1:
                 borderline = True  # the sums are accumulated in another order by the code: equality can round either way
     try:
         hc = opt.get_hard_constraints(x0, inst)
